@@ -100,7 +100,7 @@ META = {
         rule="one condition = one CrossHair run to 'Confirmed over all paths' (or one command-line scenario compared with the model); distinct = distinct conditions",
     ),
     "C15": dict(
-        bounds={"symbolic labels": "lists of <=4 integer labels in [0,3] (every equality pattern of 4 reactions)", "real reactions": "lists of <=3 selected from a pool of 16 (permuted reactants/products, two electron spellings, windows differing in both bounds or in one bound only, differing type, 3-body)", "modes": ["default", "brief", "minimal", "short"]},
+        bounds={"symbolic labels": "lists of <=4 integer labels in [0,3] (every equality pattern of 4 reactions)", "real reactions": "lists of <=3 selected from a pool of 17 (permuted reactants/products, two electron spellings, windows differing in both bounds or in one bound only, differing type, 3-body)", "modes": ["default", "brief", "minimal", "short"]},
         assume=["(a) the hash table algorithm is exercised with stub reactions whose identity is a symbolic integer (fully symbolic, all paths exhausted)", "(b) real Reaction objects are picked by symbolic selectors and then run untraced: the solver enumerates every selection within the bound",
                 "string modes ('minimal','short') compare printed names: spelling-dependent by documentation"],
         rule="one condition = one CrossHair run to 'Confirmed over all paths'; distinct = distinct conditions confirmed",
